@@ -123,7 +123,7 @@ def body(ctx, replay=None):
     if replay is not None:
         cases = [replay]
     else:
-        nb, cnt = (8, 5000) if ctx.tier == "quick" else (64, 32000)
+        nb, cnt = (16, 10000) if ctx.tier == "quick" else (64, 32000)
         cases = [{"kind": "batch", "seed": ctx.seed * 100003 + i, "count": cnt} for i in range(nb)]
         cases += [{"kind": "wiring", "seed": ctx.seed * 7 + j, "count": 200} for j in range(1 if ctx.tier == "quick" else 6)]
     ctx.run_cases(cases, eval_case)
